@@ -49,7 +49,7 @@ KINDS = (addrtable.LDL, addrtable.DLC, addrtable.RAW)
 DGRAMS = (b'\x11\x22\x33', b'\x44')
 
 PREPS = ('init', 'named15', 'named16', 'dyn31', 'dyn32', 'closedname',
-         'reused')
+         'reused', 'wks')
 
 
 class World(object):
@@ -85,7 +85,18 @@ class Spec(object):
     def init(self):
         import nfc.llcp
         import nfc.llcp.llc as llc
-        A, B = lp.make_pair(dict(miu=248, sec=False), dict(miu=248, sec=False))
+        pre = {}
+
+        def a_setup(a):
+            # prepared state 'wks': a service bound under a well-known name
+            # before the link comes up (announced in the WKS list of the PAX
+            # parameters)
+            s = a.socket(llc.DATA_LINK_CONNECTION)
+            a.bind(s, SNEP)
+            a.listen(s, 1)
+            pre[id(a)] = s
+        A, B = lp.make_pair(dict(miu=248, sec=False), dict(miu=248, sec=False),
+                            a_setup=a_setup if self.prep == 'wks' else None)
         w = World()
         w.A, w.B = A, B
         w.model = addrtable.AddrTable()
@@ -100,7 +111,14 @@ class Spec(object):
         w.rb = B.socket(llc.RAW_ACCESS_POINT)       # scripted peer endpoint
         B.bind(w.rb, 50)
         B.setsockopt(w.rb, nfc.llcp.SO_RCVBUF, 4)
-        getattr(self, 'prep_' + self.prep)(w)
+        if self.prep == 'wks':
+            s = pre[id(A)]
+            assert A.getsockname(s) == 4 and B.cfg['send-wks'] & 0x10
+            assert w.model.commit_bind('bg0', addrtable.DLC, SNEP, 4) is None
+            w.bg.append(Slot(addrtable.DLC, s))
+            w.bg_closable = 0
+        else:
+            getattr(self, 'prep_' + self.prep)(w)
         assert lp.quiesce(A, B) is not None
         v = self.invariants(w)
         assert not v, v
@@ -450,6 +468,10 @@ class Spec(object):
             for name in (n1, n2):
                 sd.snl.pop(as_bytes(name), None)
             st = lp.seq_call(lambda: B.resolve(n1))
+            if st[0] == 'ok':
+                self._judge_value(w, viol, n1, st[1],
+                                  'answered without a lookup')
+                return
             if st[0] != 'blocked':
                 raise RuntimeError("resolve_late: %r" % (st,))
             fr = lp.xfer(B, w.A)
@@ -462,6 +484,11 @@ class Spec(object):
                 st = lp.seq_call(lambda: B.resolve(n2))
             finally:
                 shims.set_choice(None)
+            if st[0] == 'ok':
+                self._judge_value(w, viol, n2, st[1],
+                                  'answered without a lookup')
+                lp.quiesce(w.A, B)
+                return
             if st[0] != 'blocked':
                 raise RuntimeError("resolve_late: %r" % (st,))
             # the second request goes out as well before any answer arrives
@@ -484,15 +511,40 @@ class Spec(object):
         B = w.B
         for name in names:
             B.sap[1].snl.pop(as_bytes(name), None)
+        pending = []
         for name in names:
             st = lp.seq_call(lambda: B.resolve(name))
+            if st[0] == 'ok':
+                # answered without asking the peer (the entry was removed
+                # from the cache): judged like any other answer
+                self._judge_value(w, viol, name, st[1],
+                                  'answered without a lookup')
+                continue
             if st[0] != 'blocked':
                 raise RuntimeError("resolve_many: %r" % (st,))
-        if len(B.sap[1].sdreq) != len(names):
+            pending.append(name)
+        if len(B.sap[1].sdreq) != len(pending):
             raise RuntimeError("resolve_many: requests not queued together")
         lp.quiesce(w.A, B)
         self.count('resolve_many')
-        self._judge_many(w, viol, names, 'several names in one SNL')
+        self._judge_many(w, viol, pending, 'several names in one SNL')
+
+    def _judge_value(self, w, viol, name, got, how):
+        bname = as_bytes(name)
+        truth = w.model.resolve(bname)
+        if got == truth:
+            return
+        if truth == 0:
+            cls = ('name of closed socket' if bname in w.closed_names
+                   else 'unbound name') + '|got address, expected 0'
+        elif got == 0:
+            cls = 'bound name|got 0'
+        else:
+            cls = 'bound name|got another address'
+        viol.append(('C17|resolve|%s|%s|nfc.llcp.llc.LogicalLinkController.'
+                     'resolve' % (cls, how),
+                     dict(name=name, got=got, expected=truth,
+                          table=self.table(w))))
 
     def _judge_many(self, w, viol, names, how):
         B = w.B
@@ -779,11 +831,11 @@ def plan(tier):
     if tier == 'quick':
         return [(('init', 2), 5), (('named15', 2), 4), (('named16', 1), 3),
                 (('dyn31', 2), 4), (('dyn32', 1), 3),
-                (('closedname', 2), 4), (('reused', 1), 4)]
+                (('closedname', 2), 4), (('reused', 1), 4), (('wks', 1), 3)]
     return [(('init', 2), 6), (('init', 3), 5),
             (('named15', 2), 5), (('named16', 2), 4),
             (('dyn31', 2), 5), (('dyn32', 2), 4),
-            (('closedname', 2), 5), (('reused', 2), 5)]
+            (('closedname', 2), 5), (('reused', 2), 5), (('wks', 2), 4)]
 
 
 def main(tier='quick', seed=0, part=None):
